@@ -135,7 +135,7 @@ class ByteVector(RawBytesView, FixedByteLengthViewHelper, View):
 
     @classmethod
     def navigate_type(cls, key: Any) -> Type[View]:
-        if key < 0 or key > cls.vector_length():
+        if key < 0 or key >= cls.vector_length():
             raise KeyError
         return byte
 
@@ -234,7 +234,7 @@ class ByteList(RawBytesView, FixedByteLengthViewHelper, View):
 
     @classmethod
     def navigate_type(cls, key: Any) -> Type[View]:
-        if key < 0 or key > cls.limit():
+        if key < 0 or key >= cls.limit():
             raise KeyError
         return byte
 
